@@ -282,7 +282,10 @@ func rulePDF417Encoder(c *Ctx) {
 				return
 			}
 			if base, f := storeBase(st.Addr); f == "width" && base != nil && namedTypeName(base.Type()) == "pdf417.pdfBarcode" {
+				savedInl := n.MaxInline
+				n.MaxInline = NewNormer(c.P).MaxInline // the width may be computed by a one-line helper
 				c.expectPoly(R6, "pdf417.EncodeWithColor/width", st.Pos(), n, st.Val, "(cols+4)*17 + 1")
+				n.MaxInline = savedInl
 			} else if base, f := storeBase(st.Addr); f == "data" && base != nil && namedTypeName(base.Type()) == "pdf417.pdfBarcode" {
 				c.expectPoly("K5-CONTENT", "pdf417.EncodeWithColor/content", st.Pos(), n, st.Val, "data")
 			}
